@@ -168,6 +168,15 @@ PROPS = {
                         "target memory holds the address-derived pattern the target wrote (checked against an independent read once per target)"],
         'partial': 'the three primitives are kernel behaviour: modelled, not verified',
     },
+    'C18': {
+        'abi_module': 'AbiC18',
+        'stages': quick_thorough(
+            [{'name': 'live', 'sub': 'c18', 'n': 16, 'timeout': 600, 'compat': lambda c, a, b: a.strip() == '3' and not b.startswith('!')}],
+            [{'name': 'live', 'sub': 'c18', 'n': 300, 'timeout': 3000, 'compat': lambda c, a, b: a.strip() == '3' and not b.startswith('!')}]),
+        'assumptions': ["what the kernel reports = the harness's own reads of /proc/<pid>/{maps,auxv,cmdline,environ,limits,fd} inside the same suspended window, uname(2), /proc/cpuinfo",
+                        "the real linker chain is checked against an independent walk written in the harness; synthetic chains against the Coq model"],
+        'partial': 'largely a data-plumbing property: theorems cover the derivation logic (protection table, auxv preference, cpuinfo selection is modelled and compared, linker chain); equality with the kernel view is differential. The proc-status stream is volatile and only its presence is checked',
+    },
     'C13': {
         'abi_module': 'AbiC13',
         'stages': quick_thorough(
